@@ -72,4 +72,24 @@ theorem src_iNetX_unpack (o : Gen.Src.Cls.iNetX.Obj) (h : iNetX.Dom o) (buf : By
   rw [iNetX.ofModel_toModel o h] at this
   rw [this]; simp
 
+/-- outside the model's domain (Python ints may be negative, the model's `Nat` fields cannot): a negative value in
+    any of the six packed attributes makes `struct.pack` refuse (`struct.error`), after `packetlen` has been stored -/
+theorem src_iNetX_pack_negative (o : Gen.Src.Cls.iNetX.Obj)
+    (h : o.inetxcontrol < 0 ∨ o.streamid < 0 ∨ o.sequence < 0 ∨ o.ptptimeseconds < 0 ∨ o.ptptimenanoseconds < 0 ∨
+      o.pif < 0) :
+    Gen.Src.Cls.iNetX.pack o
+      = ({ o with packetlen := (o.payload.length : Int) + 28 }, .error .struct) := by
+  unfold Gen.Src.Cls.iNetX.pack
+  simp only [Gen.Src.Cls.iNetX.INETX_HEADER_LENGTH, Py.len]
+  have : ∃ v, v ∈ [o.inetxcontrol, o.streamid, o.sequence, (o.payload.length : Int) + 28, o.ptptimeseconds,
+      o.ptptimenanoseconds, o.pif] ∧ v < 0 := by
+    rcases h with h | h | h | h | h | h <;> exact ⟨_, by simp, h⟩
+  obtain ⟨v, hv, hneg⟩ := this
+  rw [structPackI_neg _ _ v hv hneg]
+
+example : Gen.Src.Cls.iNetX.pack { inetxcontrol := 0, streamid := -1, sequence := 0, packetlen := 0,
+                                   ptptimeseconds := 0, ptptimenanoseconds := 0, pif := 0, payload := [1] }
+    = ({ inetxcontrol := 0, streamid := -1, sequence := 0, packetlen := 29,
+         ptptimeseconds := 0, ptptimenanoseconds := 0, pif := 0, payload := [1] }, .error .struct) := by rfl
+
 end Acra.Props.C01
